@@ -645,6 +645,11 @@ class Evaluator:
         if isinstance(f, ast.Name) and f.id not in self.env:
             if f.id == "isinstance" and len(node.args) == 2:
                 return self.isinstance(self.ev(node.args[0]), node.args[1])
+            if f.id in ("isinstance", "issubclass") and \
+                    len(node.args) != 2 and not node.keywords and \
+                    not any(isinstance(a, ast.Starred) for a in node.args):
+                # wrong number of arguments: what Python does
+                raise Raised("builtins.TypeError")
             if f.id in ("str", "repr") and len(node.args) == 1:
                 v = self.ev(node.args[0])
                 if isinstance(v, Abs):
